@@ -4,9 +4,13 @@
 // Contracts for the deductive verifier in /verif (govc). Comment-only: no executable code.
 package limiter
 
-//@ func (*rateLimiter).UpdateRateLimitConditionStatus props C13
+// (C18, C07) Cleanup only deletes a dead instance's condition; the capacity it held is returned by the NEXT successful report
+// of any live instance, which therefore always recomputes the upstream totals from the store's current conditions and saves
+// them after its own condition -- also when the reporter's own quota and usage did not change.
+//@ func (*rateLimiter).UpdateRateLimitConditionStatus props C13, C18
 //@   requires [n_range] 1 <= r.shardCount && r.shardCount <= 4294967295
 //@   modifies *
+//@   ensures [totals_recomputed] result1 == nil ==> upstreamrecalcs == old(upstreamrecalcs) + 1 && localsaves == old(localsaves) + 2
 //@   ensures [not_leader] !isLeaderOf(old(r.leaderElector), shardOf(upstream, old(r.shardCount))) ==> result1 != nil && storeops == old(storeops)
 //@   loop 0: invariant [t] true
 
@@ -178,3 +182,19 @@ package limiter
 //@   loop 0: invariant [bounds] 0 <= idx && idx <= len(SCHEMAS) && len(newFlowControlStatus) == idx
 //@   loop 0: invariant [names] forall i int :: {newFlowControlStatus[i]} 0 <= i && i < idx ==> newFlowControlStatus[i].Name == SCHEMAS[i].Name
 //@   loop 0: invariant [carried] forall i int :: {newFlowControlStatus[i]} 0 <= i && i < idx && (SCHEMAS[i].Name in flowControlStatusToMap) ==> newFlowControlStatus[i].RequestLevel == flowControlStatusToMap[SCHEMAS[i].Name].RequestLevel && (flowControlStatusToMap[SCHEMAS[i].Name].LimitItemDetail.MaxRequestsInflight != nil ==> newFlowControlStatus[i].LimitItemDetail.MaxRequestsInflight == flowControlStatusToMap[SCHEMAS[i].Name].LimitItemDetail.MaxRequestsInflight) && (flowControlStatusToMap[SCHEMAS[i].Name].LimitItemDetail.TokenBucket != nil ==> newFlowControlStatus[i].LimitItemDetail.TokenBucket == flowControlStatusToMap[SCHEMAS[i].Name].LimitItemDetail.TokenBucket)
+
+// What a limiter server advertises to the gateways: its identity and the CONFIGURED number of shards N (the gateway hashes
+// upstream names modulo exactly this N, so it must not depend on which leaders happen to be known) (C13).
+//@ func (*rateLimiter).ServerInfo props C13
+//@   modifies *
+//@   ensures [advertises_configured_n] result1 == nil && result != nil && result.ShardCount == int32(old(r.shardCount)) && result.Server == old(r.identity) && result.ID == old(r.runId)
+//@   ensures [config_untouched] r.shardCount == old(r.shardCount) && r.identity == old(r.identity)
+//@   loop 0: invariant [nothing] true
+
+//@ func (*rateLimiter).calculateUpstreamCondition props C18, C13
+//@   modifies *
+//@   ghost-set upstreamrecalcs = old(upstreamrecalcs) + 1
+//@   loop 0: invariant [t] true
+//@   loop 1: invariant [t] true
+//@   loop 2: invariant [t] true
+//@   loop 3: invariant [t] true
